@@ -67,7 +67,8 @@ func replace(regex *Regexp, data *syntax.ReplacerData, evaluator MatchEvaluator,
 		return "", errors.New("count too small")
 	}
 	if count == 0 {
-		return "", nil
+		// nothing to replace: the input is returned unchanged
+		return input, nil
 	}
 
 	if evaluator == nil {
